@@ -101,6 +101,7 @@ let rec cstmt_of (t : Sexp.t) : cstmt =
                | L [A "pv"; k; e] -> PVal (xs (atom k), cexpr_of e, acc)
                | L [A "pc"; k; body] -> PCont (xs (atom k), cblk_of body, acc)
                | _ -> failwith "bad param") ps PNil)
+  | L [A "smsg"; body] -> SMsg (cblk_of body)
   | L [A "scss"; A "none"; sfx] -> SCss (None, xs (atom sfx))
   | L [A "scss"; e; sfx] -> SCss (Some (cexpr_of e), xs (atom sfx))
   | L [A "sforrange"; x; L (a1 :: rest); body; hasie; ie] ->
